@@ -108,6 +108,12 @@ def typeorder(t1, t2):
 
 def subclasscheck(t1, t2):
     """Check whether t1 is a "subclass" of t2."""
+    # None written as a type argument (dict[str, None]) stands for NoneType
+    if t1 is None:
+        t1 = type(None)
+    if t2 is None:
+        t2 = type(None)
+
     if t1 == t2:
         return True
 
@@ -154,6 +160,9 @@ def subclasscheck(t1, t2):
     if o1 or o2:
         o1 = o1 or t1
         o2 = o2 or t2
+        if not isinstance(o1, type) or not isinstance(o2, type):
+            # Not a class, e.g. the ... of tuple[int, ...]
+            return False
         if issubclass(o1, o2):
             if o2 is t2:  # pragma: no cover
                 return True
